@@ -103,7 +103,7 @@ Lemma case_item_matches_spec subject pats asts :
 Proof.
   intros H. induction H as [|p a pats asts [Hp Hsw] Hrest IH]; [reflexivity|].
   cbn [case_item_matches item_matches_b existsb].
-  pose proof (case_pattern_correct p a subject Hp Hsw) as Hc.
+  pose proof (case_pattern_correct_plain p a subject Hp Hsw) as Hc.
   destruct (compile case_config p) as [b|e| |]; try contradiction.
   - destruct (pat_is_match case_config b subject) eqn:Em.
     + assert (matches_b a subject = true) by (apply matches_b_iff, Hc; reflexivity).
@@ -175,4 +175,121 @@ Proof.
     rewrite (case_item_matches_spec subject pats sit Hit).
     destruct (item_matches_b subject sit); [reflexivity|].
     exact (IH sitems' (S idx) Hrest Hb').
+Qed.
+
+(* the whole list of bodies, for every mix of ;; ;& ;;& *)
+Theorem case_run_spec subject : forall items sitems idx falling,
+  Forall2 (fun it sit => item_parsed (fst it) (fst sit) /\ snd it = snd sit) items sitems ->
+  case_run subject items idx falling = Some (spec_case_run subject sitems idx falling).
+Proof.
+  induction items as [|[pats cont] items IH]; intros sitems idx falling H.
+  - inversion H; subst. reflexivity.
+  - inversion H as [|? [sit cont'] ? sitems' [Hit Hc] Hrest]; subst. cbn [fst snd] in Hit, Hc. subst cont'.
+    cbn [case_run spec_case_run].
+    assert (Hrun : match cont with
+                   | CBreak => Some [idx]
+                   | CFallThrough => omap (cons idx) (case_run subject items (S idx) true)
+                   | CContinue => omap (cons idx) (case_run subject items (S idx) false)
+                   end =
+                   Some (idx :: match cont with
+                                | CBreak => []
+                                | CFallThrough => spec_case_run subject sitems' (S idx) true
+                                | CContinue => spec_case_run subject sitems' (S idx) false
+                                end)).
+    { destruct cont; [reflexivity| |]; rewrite (IH sitems' (S idx) _ Hrest); reflexivity. }
+    destruct falling; [exact Hrun|]. cbn [orb].
+    rewrite (case_item_matches_spec subject pats sit Hit).
+    destruct (item_matches_b subject sit); [exact Hrun|].
+    exact (IH sitems' (S idx) false Hrest).
+Qed.
+
+(* ------------------------------------------------------------------ *)
+(* the executable form of the trim specification; the oracle accepts the
+   model                                                                *)
+
+Lemma first_of_filter (f : nat -> bool) : forall len s n,
+  s <= n < s + len -> f n = true -> (forall m, s <= m < n -> f m = false) ->
+  hd_error (filter f (seq s len)) = Some n.
+Proof.
+  induction len as [|len IH]; intros s n Hn Hf Hmin; [lia|].
+  cbn [seq filter]. destruct (Nat.eq_dec n s) as [->|Hne].
+  - rewrite Hf. reflexivity.
+  - rewrite (Hmin s ltac:(lia)). apply IH; [lia|exact Hf|]. intros m Hm. apply Hmin. lia.
+Qed.
+
+Lemma filter_none (f : nat -> bool) : forall len s,
+  (forall m, s <= m < s + len -> f m = false) -> filter f (seq s len) = [].
+Proof.
+  induction len as [|len IH]; intros s H; [reflexivity|].
+  cbn [seq filter]. rewrite (H s ltac:(lia)). apply IH. intros m Hm. apply H. lia.
+Qed.
+
+Lemma last_of_filter (f : nat -> bool) : forall len s n,
+  s <= n < s + len -> f n = true -> (forall m, n < m < s + len -> f m = false) ->
+  hd_error (rev (filter f (seq s len))) = Some n.
+Proof.
+  induction len as [|len IH]; intros s n Hn Hf Hmax; [lia|].
+  rewrite seq_S, filter_app. cbn [filter]. destruct (Nat.eq_dec n (s + len)) as [->|Hne].
+  - rewrite Hf. rewrite rev_app_distr. reflexivity.
+  - rewrite (Hmax (s + len) ltac:(lia)). rewrite app_nil_r.
+    apply IH; [lia|exact Hf|]. intros m Hm. apply Hmax. lia.
+Qed.
+
+Lemma prefix_match_b a v n : PrefixMatch a v n <-> n <= length v /\ matches_b a (firstn n v) = true.
+Proof. unfold PrefixMatch. rewrite matches_b_iff. tauto. Qed.
+
+Lemma suffix_match_b a v n :
+  SuffixMatch a v n <-> n <= length v /\ matches_b a (skipn (length v - n) v) = true.
+Proof. unfold SuffixMatch. rewrite matches_b_iff. tauto. Qed.
+
+Lemma least_first (P : nat -> Prop) (f : nat -> bool) len n :
+  (forall m, P m <-> m <= len /\ f m = true) ->
+  Least P n -> first_of (filter f (seq 0 (S len))) = Some n.
+Proof.
+  intros HP [Hn Hmin]. apply HP in Hn as [Hn1 Hn2]. unfold first_of.
+  apply first_of_filter; [lia|exact Hn2|].
+  intros m Hm. destruct (f m) eqn:E; [|reflexivity].
+  assert (P m) by (apply HP; split; [lia|exact E]). specialize (Hmin m H). lia.
+Qed.
+
+Lemma greatest_last (P : nat -> Prop) (f : nat -> bool) len n :
+  (forall m, P m <-> m <= len /\ f m = true) ->
+  Greatest P n -> last_of (filter f (seq 0 (S len))) = Some n.
+Proof.
+  intros HP [Hn Hmax]. apply HP in Hn as [Hn1 Hn2]. unfold last_of.
+  apply last_of_filter; [lia|exact Hn2|].
+  intros m Hm. destruct (f m) eqn:E; [|reflexivity].
+  assert (P m) by (apply HP; split; [lia|exact E]). specialize (Hmax m H). lia.
+Qed.
+
+Lemma none_empty (P : nat -> Prop) (f : nat -> bool) len :
+  (forall m, P m <-> m <= len /\ f m = true) ->
+  (forall n, ~ P n) -> filter f (seq 0 (S len)) = [].
+Proof.
+  intros HP Hno. apply filter_none. intros m Hm. destruct (f m) eqn:E; [|reflexivity].
+  exfalso. apply (Hno m). apply HP. split; [lia|exact E].
+Qed.
+
+Theorem spec_trim_sound side len a v out :
+  TrimSpec side len a v out -> spec_trim side len a v = out.
+Proof.
+  unfold spec_trim, prefix_lens, suffix_lens.
+  destruct side, len; cbn [TrimSpec]; intros [(n & Hn & ->)|[Hno ->]].
+  - rewrite (least_first _ _ _ _ (prefix_match_b a v) Hn). reflexivity.
+  - rewrite (none_empty _ _ _ (prefix_match_b a v) Hno). reflexivity.
+  - rewrite (greatest_last _ _ _ _ (prefix_match_b a v) Hn). reflexivity.
+  - rewrite (none_empty _ _ _ (prefix_match_b a v) Hno). reflexivity.
+  - rewrite (least_first _ _ _ _ (suffix_match_b a v) Hn). reflexivity.
+  - rewrite (none_empty _ _ _ (suffix_match_b a v) Hno). reflexivity.
+  - rewrite (greatest_last _ _ _ _ (suffix_match_b a v) Hn). reflexivity.
+  - rewrite (none_empty _ _ _ (suffix_match_b a v) Hno). reflexivity.
+Qed.
+
+(* the oracle of the trim stream never rejects the model *)
+Theorem trim_oracle_accepts_model side len p a v :
+  parse_pattern p = Some a -> single_width a = true ->
+  exists out, trim_model side len p v = Some out /\ str_eqb out (spec_trim side len a v) = true.
+Proof.
+  intros Hp Hsw. destruct (trim_correct side len p a v Hp Hsw) as (out & Hm & Hs).
+  exists out. split; [exact Hm|]. apply str_eqb_eq. symmetry. apply spec_trim_sound. exact Hs.
 Qed.
